@@ -24,8 +24,8 @@ TAGS = [None, 'a', 'b', ['pm', 1]]
 G = [0, 0, 0.5, 1, 2, 3.25]
 
 
-def cases(max_req):
-    def build(capacity, nt, entries, reqs, hooks, pol, seed, T, vary):
+def cases(max_req, same_names=True):
+    def build(capacity, nt, entries, reqs, hooks, pol, seed, T, vary, sn):
         tnames = [f't{i}' for i in range(nt)]
         table = {}
         i = 0
@@ -38,7 +38,7 @@ def cases(max_req):
         for (ti, g, which, t2, g2) in hooks:
             hk.setdefault(maint.key(tnames[ti % nt], g) + '/' + which, []).append([tnames[t2 % nt], g2])
         return {'capacity': capacity, 'targets': nt, 'table': table, 'requests': requests, 'hooks': hk,
-                'tb': [pol, seed], 'T': T, 'vary': vary}
+                'tb': [pol, seed], 'T': T, 'vary': vary, 'same_names': bool(sn and same_names and nt > 1)}
     entry = st.tuples(st.sampled_from(G), st.sampled_from([0, 1, 1, 2, 3, 6]), st.sampled_from([0, 1, 2.5, -1.5]))
     req = st.tuples(st.sampled_from([0, 0, 1, 1, 1.5, 2, 3, 4, 6]), st.sampled_from([2, 5, 11, 3, 10, 6.5]),
                     st.integers(0, 3), st.sampled_from(TAGS))
@@ -47,7 +47,8 @@ def cases(max_req):
     return st.builds(build, st.sampled_from([0, 1, 2, 2, 3, 5, 'inf']), st.integers(1, 4),
                      st.lists(entry, min_size=3, max_size=12), st.lists(req, min_size=2, max_size=max_req),
                      st.lists(hook, max_size=4), st.sampled_from(['random', 'fifo', 'lifo', 'const']),
-                     st.integers(0, 10 ** 6), st.sampled_from([6, 12, 20]), st.booleans())
+                     st.integers(0, 10 ** 6), st.sampled_from([6, 12, 20]), st.booleans(),
+                     st.sampled_from([False, False, True]))      # distinct machines that carry the same name
 
 
 def valid(case):
